@@ -17,6 +17,7 @@ package main
 import (
 	"context"
 	"encoding/json"
+	"errors"
 	"fmt"
 	"io"
 	"log"
@@ -32,6 +33,7 @@ import (
 
 	"github.com/vektah/gqlparser/v2"
 	"github.com/vektah/gqlparser/v2/ast"
+	"github.com/vektah/gqlparser/v2/gqlerror"
 
 	"github.com/99designs/gqlgen/graphql"
 	"github.com/99designs/gqlgen/graphql/handler"
@@ -54,6 +56,30 @@ type Scn struct {
 	EndDelayNs int64 `json:"end_delay_ns"`
 	// /h/ endpoints only: which call the gate writer holds open (see gate.go)
 	Hold string `json:"hold"`
+	// FailAt > 0: the FailAt-th payload this stream produces (1-based, in production order; mm: 1 is
+	// the initial payload) cannot be serialized. FailMode "raw": Response.Data holds bytes that are not
+	// JSON (what a custom scalar marshaller that writes garbage produces); "ext": an extension value
+	// whose MarshalJSON returns an error.
+	FailAt   int    `json:"fail_at"`
+	FailMode string `json:"fail_mode"`
+}
+
+// unencodable is an extension value json.Marshal cannot encode.
+type unencodable struct{}
+
+func (unencodable) MarshalJSON() ([]byte, error) {
+	return nil, errors.New("verif: this extension value cannot be marshalled")
+}
+
+// spoil makes resp the payload whose serialization fails. ctx is the response context: the
+// executor fills Response.Extensions from what was registered there.
+func spoil(ctx context.Context, resp *graphql.Response, mode string) {
+	if mode == "ext" {
+		graphql.RegisterExtension(ctx, "verif", unencodable{})
+		return
+	}
+	d := append(json.RawMessage{}, resp.Data...)
+	resp.Data = d[:len(d)-2] // `{"n":1,"pad":"1a1b` - the string and the object are never closed
 }
 
 type rec struct {
@@ -164,6 +190,9 @@ func exec(ctx context.Context) graphql.ResponseHandler {
 		if sub {
 			id := k + 1
 			resp = &graphql.Response{Data: payloadData(id, size(k))}
+			if r.scn.FailAt == id {
+				spoil(ctx, resp, r.scn.FailMode)
+			}
 			r.mu.Lock()
 			r.produced = append(r.produced, id)
 			r.mu.Unlock()
@@ -174,6 +203,9 @@ func exec(ctx context.Context) graphql.ResponseHandler {
 		if k > 0 {
 			resp.Path = ast.Path{ast.PathName("q"), ast.PathIndex(k)}
 			resp.Label = "L" + strconv.Itoa(k)
+		}
+		if r.scn.FailAt == k+1 {
+			spoil(ctx, resp, r.scn.FailMode)
 		}
 		r.mu.Lock()
 		r.produced = append(r.produced, k)
@@ -194,6 +226,10 @@ func gqlServer(kind string, ns int64) http.Handler {
 		},
 		ExecFunc: exec,
 	})
+	// what handler.Server does with a panic it recovers is the default (the message of the error it
+	// writes is DefaultRecover's); only the stack dump on stderr is left out, so that the stderr of
+	// a child that really dies shows that panic and nothing else
+	srv.SetRecoverFunc(func(ctx context.Context, err any) error { return gqlerror.Errorf("internal system error") })
 	switch kind {
 	case "sse":
 		srv.AddTransport(transport.SSE{KeepAlivePingInterval: time.Duration(ns)})
